@@ -64,6 +64,29 @@ CLAIMED = {
             "multi-hop ownership transfer of pooled buffers, channel capacity/deadlock on full channels, start-up ordering of main (bridge assumption I5), the TCP-backend path under load. "
             "The race-detector run is supporting evidence only; a report or a lost message there is reported as a violation with the log as replay.",
             "Coq proof (lockset soundness over abstract traces; vm_compute over the access table translated from the source on every run) + race-detector stress run"),
+    "C10": ("Theorems: C10_isolated / C10_isolated_fits (for EVERY stale buffer content and datagram: what the repaired UDP parse returns is parse_bytes of the datagram alone), "
+            "C10_history (every event sequence from every well-formed pool/queue state, any recycling order), C10_short_discarded (accepted only if the header section is closed by a "
+            "blank line and the declared body lies inside the datagram's own bytes; never Panic), C10_pool_exclusive(_udp) (no buffer simultaneously pooled and held, or held twice, "
+            "for every Alloc/Free sequence), C10_legacy_refuted. Correspondence: the real startParseMessage loop and ByteArrayPool with deliberately dirty buffers, every cut offset of "
+            "sample datagrams, over-/under-declared Content-Length.",
+            "C10_history is at the level of parse results (what is relayed for a decoded message is the whole-proxy model's subject). Carries 2*len <= 2^47 (the model's make limit).",
+            "Coq proof (refinement of the concrete bufio reader to the abstract byte reader; pool invariant by induction) + differential run with dirty buffers"),
+    "C11": ("Theorems: C11_read_slice_abs (what bufio.ReadSlice returns depends on the remaining stream and the window size only), C11_read_line_abs, C11_framing (for EVERY segmentation "
+            "into non-empty chunks and every window size the concrete reader loop yields parse_stream of the concatenated bytes), C11_segmentation_independent, C11_exact / "
+            "C11_exact_segmented (every list of well-formed messages with keep-alive blank lines, CRLF or LF, header lines of any length, arbitrary bodies is decoded to exactly those "
+            "messages), C11_legacy_refuted(_4096) (the pre-fix readLine depends on the segmentation). Correspondence: the real ParseMessage loop over a scripted chunking reader: all "
+            "single/double cuts of short sequences, random multi-cuts down to 1-byte segments, windows 16/17/64/4096.",
+            "Carries 2*len <= 2^47 (the model's make limit). UnreadByte modelled only directly after ReadByte (the only use). The wire-level TCP client with scripted segments is part of the "
+            "whole-proxy engine, not of this component.",
+            "Coq proof (refinement bufio-reader model -> abstract reader, fuel shown sufficient) + exhaustive-cuts differential run"),
+    "C08": ("PARTIAL. Theorems: decode level — C08_parse_no_panic, C08_parse_terminates (every loop is structural / fuel never exhausted), C08_alloc_bounded (bytes requested from make <= 4*received "
+            "+ 64 KiB), C08_parse_no_panic_udp, C08_legacy_refuted (absurd Content-Length -> Panic / 1 GiB requested in the pre-fix model); whole pipeline — see proofs/C08.v (no guarded "
+            "Go operation of decode/learn/stamp/route/pin/relay can go out of bounds; undecodable input is discarded with the state unchanged). Correspondence: hostile histories through the "
+            "real proxy over UDP and TCP (mutations, hostile field values, thousands of headers/parameters), each ending with a request that must still be served; process death, a barrier "
+            "that never returns and > 768 MiB obtained from the OS are violations; plus the in-package hostile stream against the bufio/UDP-buffer model.",
+            "Real memory use (RSS), goroutine starvation and stalls inside blocking I/O (dial to a black-holed next hop) are runtime behaviour the model cannot exhibit; fmt/regexp/net/bufio "
+            "internals are trusted not to panic; the memory ceiling and liveness barrier are supporting evidence.",
+            "Coq proof (Panic-carrying result monad: every slice/index/make of the modelled pipeline guarded for all inputs) + hostile-input differential run"),
 }
 
 
